@@ -247,21 +247,27 @@ static void svp_case(uint64_t N, int fam, int native, int tmp_a, uint64_t res_si
   char key[128];
   // tmp_a: 0 idft, 1 idft_tmp_a, 2 idft writing over its own input (res == a_dft);
   // +4: the DFT vector has only min(a_size, res_size) rows, so the zero rows come from the inverse DFT, not from svp_apply_dft
-  const int short_dft = (tmp_a & 4) != 0;
+  // +8: the DFT vector has two rows more than the output (the inverse DFT truncates)
+  const int short_dft = (tmp_a & 4) != 0, long_dft = (tmp_a & 8) != 0;
   tmp_a &= 3;
   static const char* const idn[] = {"idft", "idft_tmp_a", "idft(res==a_dft)"};
-  snprintf(key, sizeof key, "svp_apply_dft+%s%s|%s,%s%s", idn[tmp_a], short_dft ? ",short-dft" : "", famn[fam], res_size > a_size ? "res>a" : (res_size == a_size ? "res=a" : "res<a"), native ? "" : ",generic");
+  snprintf(key, sizeof key, "svp_apply_dft+%s%s|%s,%s%s", idn[tmp_a], short_dft ? ",short-dft" : (long_dft ? ",long-dft" : ""), famn[fam], res_size > a_size ? "res>a" : (res_size == a_size ? "res=a" : "res<a"), native ? "" : ",generic");
   if (!case_begin(key, "N=%" PRIu64 " fam=%s disp=%s res=%" PRIu64 " a=%" PRIu64 " asl=%u rep=%u", N, famn[fam], native ? "native" : "generic", res_size, a_size, aslc, rep)) return;
   rng_t* r = crng();
   const MODULE* mod = get_module(N, FFT64, native);
-  const uint64_t dsize = short_dft ? (a_size < res_size ? a_size : res_size) : res_size;
+  const uint64_t dsize = short_dft ? (a_size < res_size ? a_size : res_size) : (long_dft ? res_size + 2 : res_size);
   zvec_t A;
   zvec_alloc(&A, N, a_size, stride_choice(N, aslc), 8 * (rep % 8));
   gbuf_t gb, gp, gd, gbig, gt;
   int64_t* b = gb_alloc(&gb, N * 8, 8, 8 * ((rep + 1) % 8), 4096);
   SVP_PPOL* ppol = gb_alloc(&gp, bytes_of_svp_ppol(mod), 8, 8 * ((rep + 2) % 8), 4096);
-  VEC_ZNX_DFT* dft = gb_alloc(&gd, bytes_of_vec_znx_dft(mod, res_size), 8, 8 * ((rep + 3) % 8), 4096);
-  VEC_ZNX_BIG* big = gb_alloc(&gbig, bytes_of_vec_znx_big(mod, res_size), 8, 8 * ((rep + 4) % 8), 4096);
+  // allocation order of the two objects alternates (with the adjacent placements: which one lies just below the other)
+  VEC_ZNX_DFT* dft = 0;
+  VEC_ZNX_BIG* big = 0;
+  for (int o = 0; o < 2; o++) {
+    if ((o ^ (int)(rep & 1)) == 0) dft = gb_alloc(&gd, bytes_of_vec_znx_dft(mod, dsize > res_size ? dsize : res_size), 8, 8 * ((rep + 3) % 8), 4096);
+    else big = gb_alloc(&gbig, bytes_of_vec_znx_big(mod, res_size), 8, 8 * ((rep + 4) % 8), 4096);
+  }
   uint8_t* tmp = gb_alloc(&gt, vec_znx_idft_tmp_bytes(mod), 8, 8, 4096);
   gb_prefill(&gp, 2, 0);
   gb_prefill(&gd, (int)rep, 1);
@@ -295,7 +301,7 @@ static void svp_case(uint64_t N, int fam, int native, int tmp_a, uint64_t res_si
     vec_znx_idft(mod, big, res_size, dft, dsize, tmp);
   i128* exact = malloc(N * 16);
   const int64_t* out = tmp_a == 2 ? (const int64_t*)dft : (const int64_t*)big;
-  cntf("idft_variant:%s%s", 1, idn[tmp_a], short_dft ? ",short-dft" : "");
+  cntf("idft_variant:%s%s", 1, idn[tmp_a], short_dft ? ",short-dft" : (long_dft ? ",long-dft" : ""));
   for (uint64_t l = 0; l < res_size; l++) {
     if (l < a_size)
       check_product(tmp_a ? "svp+idft_tmp_a" : "svp+idft", N, zvec_limb(&A, l), b, out + l * N, exact);
@@ -465,6 +471,7 @@ void run_C01(void) {
           svp_case(N, fam, native, (int)(ctr & 1), rs, as, ctr % 4, rep);
           if (rep == 0 && N <= 4096) svp_case(N, fam, native, (int)((ctr + 1) & 1), as, rs, (ctr + 1) % 4, rep);
           // the in-place inverse DFT and DFT vectors shorter than the output (zero rows produced by the inverse DFT)
+          if (rep <= 1) svp_case(N, fam, native, (int)((ctr + rep) % 3) | 8, N >= 16384 && !th ? 1 : 1 + (ctr % 3), N >= 16384 && !th ? 3 : 1 + (ctr / 3) % 5, (ctr + 1) % 4, rep + 70);
           if (rep <= 1) svp_case(N, fam, native, (rep ? 2 : (int)(ctr % 3)) | 4, N >= 16384 && !th ? 2 : 1 + (ctr % 4), N >= 16384 && !th ? 1 : (ctr / 4) % 4, ctr % 4, rep + 50);
         }
     if (N <= (th ? 4096u : 256u))
